@@ -74,6 +74,19 @@ Section Keep2.
         + intros w0 Hw. rewrite Ee in Hw. destruct Hw as [<-|Hw]; [exact Pw | apply K5; exact Hw].
     Qed.
 
+    Lemma process_value_rec_keep2 w s s' :
+      P w -> process_value_rec w s = (s', None) -> TI s -> KInv2 s -> KInv2 s'.
+    Proof.
+      intros Pw H T K. destruct (process_value_rec_ok _ _ _ H) as [s1 [Eok ->]].
+      pose proof (process_value_keep2 w s s1 Pw Eok T K) as K1.
+      destruct (memN w (f_seen s)) eqn:Es; simpl; [exact K1|].
+      destruct (first_visit_top _ _ _ Eok Es) as [x [top [rest [A [B C]]]]].
+      destruct K1 as [Q R S]. constructor; simpl; try assumption.
+      apply (record_scopes_prop (fun y => (exists w0, In w0 (f_seen s1) /\ vn0 w0 = Some y) \/ ~ In y rv) w s1).
+      - intros y Hy. assert (y = x) by congruence. subst y. apply (Q top x); [rewrite B; left; reflexivity | exact C].
+      - exact Q.
+    Qed.
+
     Lemma process_values_keep2 ws : forall s s',
       Forall P ws -> Forall (closed_val inits0 E) ws -> process_values ws s = (s', None) -> TI s -> KInv2 s ->
       TI s' /\ KInv2 s'.
@@ -81,10 +94,10 @@ Section Keep2.
       induction ws as [|w r IH]; intros s s' HP Hc H T K; simpl in H.
       - inversion H; subst. auto.
       - inversion HP; subst. inversion Hc; subst. unfold fbind in H.
-        destruct (process_value w s) as [s1 [e|]] eqn:E1; simpl in H; [inversion H|].
+        destruct (process_value_rec w s) as [s1 [e|]] eqn:E1; simpl in H; [inversion H|].
         assert (T1 : TI s1).
-        { destruct (process_value_good vn0 inits0 rv E W w H4 s T) as [_ B]. rewrite E1 in B. apply B. reflexivity. }
-        apply (IH s1 s'); try assumption. eapply process_value_keep2; eassumption.
+        { destruct (process_value_rec_good vn0 inits0 rv E W w H4 s T) as [_ B]. rewrite E1 in B. apply B. reflexivity. }
+        apply (IH s1 s'); try assumption. eapply process_value_rec_keep2; eassumption.
     Qed.
 
     Lemma node_name_keep2 m s s' : process_node_name m s = (s', None) -> TI s -> KInv2 s -> TI s' /\ KInv2 s'.
@@ -106,7 +119,7 @@ Section Keep2.
       - destruct (f_vscopes s) as [|top rest] eqn:Hsc; [inversion H|].
         destruct Hc as [Hio HgE]. apply Forall_app in Hio. destruct Hio as [Hi Ho].
         apply Forall_app in HP. destruct HP as [Pi Po].
-        set (s1 := mkF (f_vx s) (f_nx s) (f_rv s) (f_rn s) (f_vn s) (f_nn s) (f_inits s) (f_seen s) (f_vcnt s) (f_ncnt s)
+        set (s1 := mkF (f_own s) (gid :: f_so s) (f_vx s) (f_nx s) (f_rv s) (f_rn s) (f_vn s) (f_nn s) (f_inits s) (f_seen s) (f_vcnt s) (f_ncnt s)
                        (top :: top :: rest) ([] :: f_nscopes s) (f_mod s)) in *.
         assert (T1 : TI s1) by (destruct T as [a b c d f0 g0 h]; constructor; simpl; assumption).
         assert (K1 : KInv2 s1).
@@ -162,21 +175,21 @@ Proof.
 Qed.
 
 (* C15_fix_keeps_unique, values, one run *)
-Theorem fix_keeps_unique_value_run g vx nx vn nn inits m v n :
+Theorem fix_keeps_unique_value_run g own vx nx vn nn inits m v n :
   WF0 vn inits -> closed_run (events_graph g) inits ->
   vn v = Some n -> n <> [] ->
   run_vals (events_graph g) inits v ->
   (forall w, w <> v -> run_vals (events_graph g) inits w -> vn w <> Some n) ->
-  f_vn (fst (fix_graph_names g vx nx vn nn inits m)) v = Some n.
+  f_vn (fst (fix_graph_names g own vx nx vn nn inits m)) v = Some n.
 Proof.
   intros W Hc Hv Hn Hin Hu.
-  destruct (fix_run_total g vx nx vn nn inits m W Hc) as [Hnone _].
+  destruct (fix_run_total g own vx nx vn nn inits m W Hc) as [Hnone _].
   set (es := events_graph g) in *.
   set (rv := fst (collect_names es vn nn inits)). set (rn := snd (collect_names es vn nn inits)).
-  assert (Er : fix_graph_names g vx nx vn nn inits m = fx_events es (fx_init vx nx rv rn vn nn inits m)).
+  assert (Er : fix_graph_names g own vx nx vn nn inits m = fx_events es (fx_init own vx nx rv rn vn nn inits m)).
   { unfold fix_graph_names, rv, rn, es. destruct (collect_names (events_graph g) vn nn inits); reflexivity. }
   rewrite Er in *.
-  destruct (fx_events es (fx_init vx nx rv rn vn nn inits m)) as [s' e] eqn:Hrun. simpl in Hnone. subst e. simpl.
+  destruct (fx_events es (fx_init own vx nx rv rn vn nn inits m)) as [s' e] eqn:Hrun. simpl in Hnone. subst e. simpl.
   assert (Hev : Forall (ev_closed inits (entered es)) es).
   { apply closed_events; [|apply incl_refl]. intros w Hw g0 k X. eapply Hc; eassumption. }
   assert (Hr : In n rv).
@@ -184,8 +197,8 @@ Proof.
     - apply (collect_values es vn nn inits v n Hin Hv Hn).
     - destruct (w_keyed _ _ W _ _ _ Hk) as [A _]. assert (k = n) by congruence. subst k.
       eapply collect_keys; eassumption. }
-  pose proof (TInv_init vx nx vn nn inits m g W) as T0. simpl in T0. fold es rv rn in T0.
-  assert (K0 : KInv2 vn rv (run_vals es inits) v n (fx_init vx nx rv rn vn nn inits m)).
+  pose proof (TInv_init own vx nx vn nn inits m g W) as T0. simpl in T0. fold es rv rn in T0.
+  assert (K0 : KInv2 vn rv (run_vals es inits) v n (fx_init own vx nx rv rn vn nn inits m)).
   { constructor; simpl; auto. - intros u x [<-|[]] []. - intros w []. }
   assert (PE : forall gid k w, In gid (entered es) -> In (k, w) (get_dict gid inits) -> run_vals es inits w).
   { intros gid k w A B. right. exists gid, k. auto. }
@@ -206,14 +219,21 @@ Proof.
     destruct S as [new [_ [_ [_ [_ [A _]]]]]]. rewrite A in Hx. destruct Hx as [<-|Hx]; auto.
 Qed.
 
+Lemma process_value_rec_seen_rev w s s' : process_value_rec w s = (s', None) ->
+  forall x, In x (f_seen s') -> x = w \/ In x (f_seen s).
+Proof.
+  intros H. destruct (process_value_rec_ok _ _ _ H) as [s1 [E ->]].
+  pose proof (process_value_seen_rev _ _ _ E) as F. destruct (negb (memN w (f_seen s))); simpl; exact F.
+Qed.
+
 Lemma process_values_seen_rev ws : forall s s', process_values ws s = (s', None) ->
   forall x, In x (f_seen s') -> In x ws \/ In x (f_seen s).
 Proof.
   induction ws as [|w r IH]; intros s s' H x Hx; simpl in H.
   - inversion H; subst. right. exact Hx.
-  - unfold fbind in H. destruct (process_value w s) as [s1 [e|]] eqn:E1; simpl in H; [inversion H|].
+  - unfold fbind in H. destruct (process_value_rec w s) as [s1 [e|]] eqn:E1; simpl in H; [inversion H|].
     destruct (IH _ _ H x Hx) as [A|A]; [left; right; exact A|].
-    destruct (process_value_seen_rev _ _ _ E1 x A) as [->|B]; [left; left; reflexivity | right; exact B].
+    destruct (process_value_rec_seen_rev _ _ _ E1 x A) as [->|B]; [left; left; reflexivity | right; exact B].
 Qed.
 
 Section Frame.
@@ -270,21 +290,21 @@ Section Frame.
   Qed.
 End Frame.
 
-Theorem fix_run_frame g vx nx vn nn inits m w :
+Theorem fix_run_frame g own vx nx vn nn inits m w :
   WF0 vn inits -> closed_run (events_graph g) inits -> ~ run_vals (events_graph g) inits w ->
-  f_vn (fst (fix_graph_names g vx nx vn nn inits m)) w = vn w.
+  f_vn (fst (fix_graph_names g own vx nx vn nn inits m)) w = vn w.
 Proof.
   intros W Hc Hw.
-  destruct (fix_run_total g vx nx vn nn inits m W Hc) as [Hnone [_ [_ Tf]]].
+  destruct (fix_run_total g own vx nx vn nn inits m W Hc) as [Hnone [_ [_ Tf]]].
   set (es := events_graph g) in *.
   set (rv := fst (collect_names es vn nn inits)) in *. set (rn := snd (collect_names es vn nn inits)).
-  assert (Er : fix_graph_names g vx nx vn nn inits m = fx_events es (fx_init vx nx rv rn vn nn inits m)).
+  assert (Er : fix_graph_names g own vx nx vn nn inits m = fx_events es (fx_init own vx nx rv rn vn nn inits m)).
   { unfold fix_graph_names, rv, rn, es. destruct (collect_names (events_graph g) vn nn inits); reflexivity. }
   rewrite Er in *.
-  destruct (fx_events es (fx_init vx nx rv rn vn nn inits m)) as [s' e] eqn:Hrun. simpl in *. subst e.
+  destruct (fx_events es (fx_init own vx nx rv rn vn nn inits m)) as [s' e] eqn:Hrun. simpl in *. subst e.
   apply (t_unseen _ _ _ _ _ Tf). intros Hs. apply Hw.
   assert (Hev : Forall (ev_closed inits (entered es)) es).
   { apply closed_events; [|apply incl_refl]. intros w0 Hw0 g0 k X. eapply Hc; eassumption. }
-  pose proof (TInv_init vx nx vn nn inits m g W) as T0. simpl in T0. fold es rv rn in T0.
+  pose proof (TInv_init own vx nx vn nn inits m g W) as T0. simpl in T0. fold es rv rn in T0.
   destruct (fx_events_seen_rev vn inits rv (entered es) W es _ _ Hev Hrun T0 w Hs) as [[]|X]. exact X.
 Qed.
